@@ -1,6 +1,9 @@
 package replica
 
-import "github.com/openebs/jiva/types"
+import (
+	"github.com/openebs/jiva/types"
+	"github.com/openebs/jiva/zzfs"
+)
 
 // C19 (ii): Replica.UpdateCloneInfo: on success the head's parent and info.Parent
 // name the snapshot, the revision counter equals the recorded one, and a reopen
@@ -10,6 +13,15 @@ func ZZ_C19_UpdateCloneInfo() {
 	r, err := zzOpenReplica()
 	zzAssume(err == nil)
 	r.mode = types.WO
+	// the copy has put the source snapshot's files into the directory (or has not)
+	copied := zzNondetBool("snapshot-copied")
+	if copied {
+		for _, n := range []string{"volume-snap-s1.img", "volume-snap-s1.img.meta"} {
+			cf, cerr := zzfs.OpenFile(zzDir+"/"+n, 0x42, 0600)
+			zzAssume(cerr == nil)
+			zzfs.FileClose(cf)
+		}
+	}
 	rev := zzNondetInt64("rev")
 	zzAssume(rev >= 0)
 	failAt := zzConcretize(zzChoice("failAt", 21)) // 20 = no failure
@@ -22,6 +34,14 @@ func ZZ_C19_UpdateCloneInfo() {
 		revText = "12x"
 	}
 	uerr := r.UpdateCloneInfo("s1", revText)
+	if !copied {
+		zzReach("C19.updatecloneinfo.not-copied")
+		zzAssert(uerr != nil, "C19.UpdateCloneInfo-accepted-a-snapshot-that-was-not-copied")
+		fs.Revive()
+		info, ierr := ReadInfo(zzDir)
+		zzAssert(ierr == nil && info.Parent == "", "C19.refused-UpdateCloneInfo-rewired-the-head")
+		return
+	}
 	if fs.Failed || revText == "12x" {
 		zzReach("C19.updatecloneinfo.failed")
 		zzAssert(uerr != nil, "C19.UpdateCloneInfo-swallowed-a-failure")
